@@ -156,6 +156,42 @@ func Solve(sc *Rendered, dir, name string, timeoutS int, all bool) *SolveResult 
 			}
 		}
 	}
+	if definite == nil {
+		// second chance: quantified nonlinear goals are sensitive to the solver's search order (an unrelated extra
+		// hypothesis can turn a 2 s proof into a timeout), so the same query is retried under other random seeds
+		var retry []solverSpec
+		for _, seed := range []int{1, 2, 3, 4, 5, 6} {
+			seed := seed
+			extra := []string{fmt.Sprintf("smt.random_seed=%d", seed), fmt.Sprintf("sat.random_seed=%d", seed)}
+			name := fmt.Sprintf("z3-new-5.1.0(seed=%d)", seed)
+			if seed > 4 {
+				extra = append(extra, "smt.arith.solver=2")
+				name = fmt.Sprintf("z3-new-5.1.0(arith.solver=2,seed=%d)", seed)
+			}
+			retry = append(retry, solverSpec{name: name, cmd: func(f string, t int) []string {
+				return append(append([]string{"z3-new", fmt.Sprintf("-T:%d", t)}, extra...), f)
+			}})
+		}
+		ch2 := make(chan ans, len(retry))
+		for _, s := range retry {
+			s := s
+			go func() {
+				st, out, secs := runSolver(ctx, s, fz, timeoutS)
+				ch2 <- ans{s, st, out, secs}
+			}()
+		}
+		for i := 0; i < len(retry); i++ {
+			a := <-ch2
+			res.All[a.s.name] = a.status
+			if a.status == "sat" || a.status == "unsat" {
+				aa := a
+				definite = &aa
+				res.Seconds = time.Since(t0).Seconds()
+				cancel()
+				break
+			}
+		}
+	}
 	if definite != nil {
 		res.Status = definite.status
 		res.Solver = definite.s.name
